@@ -1,8 +1,11 @@
+"""Resolves a merge conflict in known_findings.json: union of both sides' "findings" and "fixed"; with a property id as
+argument, that property's findings are taken from the merged branch only (a follow-up may have repaired a former finding)."""
 import json, subprocess, sys
 def load(stage):
     return json.loads(subprocess.check_output(["git", "-C", "/verif", "show", f":{stage}:known_findings.json"]))
 ours, theirs = load(2), load(3)
-out = {"findings": list(ours.get("findings", [])), "fixed": list(ours.get("fixed", []))}
+prop = sys.argv[1] if len(sys.argv) > 1 else None
+out = {"findings": [f for f in ours.get("findings", []) if f["property"] != prop], "fixed": list(ours.get("fixed", []))}
 for f in theirs.get("findings", []):
     if not any(g["property"] == f["property"] and g["signature"] == f["signature"] for g in out["findings"]):
         out["findings"].append(f)
